@@ -90,13 +90,18 @@ def rand_items(rng, maxitems=5, maxnum=36, allow_desc=True):
         if rng.chance(2, 5):
             a = rng.range(1, maxnum)
             b = rng.range(1, maxnum)
+            if rng.chance(1, 14):      # number zero ('Sec 0 - 3', 'Lots 3 - 0'): int('') / lstrip('0') style slips show only here
+                if rng.chance(1, 2):
+                    a = 0
+                else:
+                    b = 0
             if not allow_desc and a > b:
                 a, b = b, a
             if a == b and rng.chance(3, 4):
                 b = min(maxnum, a + rng.range(1, 4)) if a < maxnum else a
             items.append(('range', a, b))
         else:
-            items.append(('single', rng.range(1, maxnum)))
+            items.append(('single', 0 if rng.chance(1, 25) else rng.range(1, maxnum)))
     return items
 
 
@@ -127,6 +132,8 @@ def render_items(items, rng, words, pad=False, repeat_word=True):
             s = str(n)
             if pad and rng.chance(1, 4):
                 s = s.rjust(2, '0')
+            if n == 0 and rng.chance(1, 2):
+                s = rng.choice(['00', '000'])
             return s
         lead = ''
         if i == 0:
